@@ -68,6 +68,8 @@ type simStep struct {
 	Task string                 `json:"task,omitempty"`
 	Arg  map[string]interface{} `json:"arg,omitempty"`
 	Rf   *bool                  `json:"rf,omitempty"`
+	// network fault: the dial (replSend on a closed connection) or the RPC request fails although the peer is running
+	Fail bool `json:"fail,omitempty"`
 }
 
 func (c *simCluster) doStep(s simStep) (ev map[string]interface{}) {
@@ -88,11 +90,11 @@ func (c *simCluster) doStep(s simStep) (ev map[string]interface{}) {
 	case "timeout":
 		ev = c.stepTimeout(s.N)
 	case "voteReq", "timeoutNowReq":
-		ev = c.stepRPCReq(s.K[:len(s.K)-3], s.From, s.To, s.Term)
+		ev = c.stepRPCReq(s.K[:len(s.K)-3], s.From, s.To, s.Term, s.Fail)
 	case "voteResp", "timeoutNowResp":
 		ev = c.stepRPCResp(s.K[:len(s.K)-4], s.From, s.To, s.Term)
 	case "replSend":
-		ev = c.stepReplSend(s.I, s.J)
+		ev = c.stepReplSend(s.I, s.J, s.Fail)
 	case "appendReq":
 		ev = c.stepAppendReq(s.I, s.J, s.Conn)
 	case "appendResp":
@@ -223,7 +225,7 @@ func (c *simCluster) consumeResult(rpc *simRPC) {
 	}
 }
 
-func (c *simCluster) stepRPCReq(kind string, from, to, term uint64) map[string]interface{} {
+func (c *simCluster) stepRPCReq(kind string, from, to, term uint64, drop bool) map[string]interface{} {
 	rp := c.findRPC(kind, from, to, term, 0)
 	if rp == nil {
 		return skipped("no such request")
@@ -231,8 +233,11 @@ func (c *simCluster) stepRPCReq(kind string, from, to, term uint64) map[string]i
 	ev := map[string]interface{}{"kind": kind + "Req", "from": from, "n": to, "term": rp.term, "transfer": rp.transfer,
 		"lastIndex": rp.lastIdx, "lastTerm": rp.lastTerm}
 	target := c.nodes[to]
-	if target == nil || !target.up {
+	if target == nil || !target.up || drop {
 		ev["lost"] = true
+		if drop {
+			ev["dropped"] = true
+		}
 		c.rpcFailed(rp)
 		return ev
 	}
